@@ -376,6 +376,7 @@ class Executor(object):
         s.models = {}
         s.max_steps = max_steps
         s.max_rss_mb = int(os.environ.get('VERIF_MAX_RSS_MB', '3500'))
+        s.child_first = False
         s.budget_tick = 0
         s.max_paths = max_paths
         s.enum_limit = enum_limit
